@@ -256,7 +256,7 @@ pub fn subs() -> Vec<Sub> {
 }
 
 pub fn run(env: &mut Env) -> RunResult {
-    let n = env.tier.sel(20_000, 200_000);
+    let n = env.tier.sel(20_000, 1_000_000);
     env.run_tapes(SUB_35, n, 120)?;
     env.run_tapes(SUB_53, n, 260)?;
     let nn = names().len() as u64;
